@@ -69,6 +69,8 @@ Definition event_ok (tr : list ev) (i : nat) : bool :=
       let p := firstn (S i) tr in
       existsb is_dropstate p && optN_eqb (last_opt (received s p)) (last_opt (sets_after s p))
   | Some (Set_ v, OSet g) => (v =? g)%N
+  | Some (Set_ v, OGone) => existsb is_dropstate (firstn i tr)
+  | Some (Set_ v, _) => false
   | Some (_, OPanic) => false
   | Some (_, OFuel) => false
   | _ => true
